@@ -8,7 +8,7 @@
    hypotheses in PageLoopProofs.v (PROGRESS: a page that is not blank and does
    not finish the document consumes at least one unit -- the pageIsEmpty rule of
    blocks.go 747-770 / 899-1010; the first reported footnote of a page is
-   always placed -- pages.go 764-771).
+   always placed -- pages.go 704-717, modelled by [report_loop] below).
    No proofs in this file.  Partial Go operations (slice indexing) go through
    the Panic monad of Base/GoSem.v, loops are fuelled. *)
 From Verif Require Import Base.GoSem.
@@ -31,6 +31,32 @@ Fixpoint set_nth {A} (l : list A) (n : nat) (x : A) : list A :=
   | _ :: r, O => x :: r
   | a :: r, S k => a :: set_nth r k x
   end.
+
+(* pages.go 704-717 (makePage): the footnotes reported by the previous page are
+   laid out first, in order; one that overflows the footnote area is reported
+   again, together with all the ones after it (reportedFootnotes[i:]) -- EXCEPT
+   the first one (`overflow && i != 0`): it stays on this page even if it
+   overflows, otherwise a footnote higher than the footnote area would be
+   reported from page to page for ever.
+     first_forced   the `i != 0` guard (true = /repo; false = the guard removed)
+     overflow i     result of layoutFootnote for the i-th reported footnote
+     n              footnotes not visited yet (the loop starts with i = 0, n = fn)
+   Result: len(context.reportedFootnotes) after the loop. *)
+Fixpoint report_loop (first_forced : bool) (overflow : nat -> bool) (i n : nat) : nat :=
+  match n with
+  | O => 0
+  | S n' =>
+      if overflow i && (negb first_forced || negb (i =? 0)) then n   (* break: [i:] reported again *)
+      else report_loop first_forced overflow (S i) n'
+  end.
+
+(* a blank page has no content (pages.go 690-693: the root box is copied without
+   children), so the footnotes it reports are the ones left by this loop.
+   overflow fn i : does the i-th of fn reported footnotes overflow; flags = the
+   (ContentChanged, PagesWanted) pair the page sets. *)
+Definition blank_of_report_loop (first_forced : bool) (overflow : nat -> nat -> bool)
+           (flags : nat -> bool * bool) (fn : nat) : nat * (bool * bool) :=
+  (report_loop first_forced (overflow fn) 0 fn, flags fn).
 
 Definition is_none {A} (o : option A) : bool := match o with None => true | Some _ => false end.
 Definition is_some {A} (o : option A) : bool := negb (is_none o).
